@@ -57,6 +57,14 @@ def run(tier, replay=None):
 
     gen_common.run_gen(res, tier, total, judge)
     # reader side on Vector's own logs
+    # a session of more than 4 GiB (plain build, compressible payloads): header sizes and both sets of counters vs the container chain
+    import threading
+    big = common.hbuild('h_big', ['h_big.cpp'], 'plain')
+    nbig = 1 if tier == 'quick' else 2
+    bigsh = common.Sharded(big, lambda a, b: ['big', common.seed() + 7, a, b], nbig, env=common.san_env(dict(VERIF_TMP=common.scratch_dir())), chunk=1,
+                           tag='c05big', timeout=2400, case_timeout=1000)
+    bt = threading.Thread(target=bigsh.run)
+    bt.start()
     exe = common.hbuild('h_file', ['h_file.cpp'], 'asan', need_reflect=True)
     logs = blf.reference_logs()
     lst = os.path.join(common.scratch_dir(), 'reflogs.txt')
@@ -85,12 +93,19 @@ def run(tier, replay=None):
             if cc != hc:
                 res.violation('reference:currentObjectCount', '%s reader %d header %d (%d objects, %d restore points)' % (name, cc, hc, n, n115))
     res.evaluations += nref
+    bt.join()
+    common.absorb(res, bigsh)
+    bst = common.merge_stats(bigsh.stats)
+    res.evaluations += bst.get('big_sessions', 0)
     res.distinct = shapes
     res.rule = ('files as in C04 with random caller-supplied header fields (boundary bias); header on disk vs recomputation from the independent '
                 'container walk (fileSize, uncompressedFileSize = 144 + sum(32 + usize), objectCount, restorePointsOffset, caller fields verbatim), '
                 'writer\'s fileStatistics after close, and a reader consuming the file: running counters == header; plus the same reader check on '
-                'all 170 reference logs; distinct = (level, C, trailer, has restore-point objects, #objects class)')
-    res.extra = dict(reference_logs_checked=nref)
+                'all 170 reference logs; plus one (quick) / two (thorough) sessions of more than 2^32 bytes whose header sizes, writer and reader counters are '
+                'compared with the container chain; distinct = (level, C, trailer, has restore-point objects, #objects class)')
+    res.extra = dict(reference_logs_checked=nref, sessions_beyond_4GiB=bst.get('big_sessions', 0), max_stream_position=bst.get('max_stream_position', 0))
+    if bst.get('big_sessions', 0) < nbig and not (bigsh.viols or bigsh.crashes or bigsh.hangs):
+        res.inconclusive.append('4 GiB sessions: %d of %d reported' % (bst.get('big_sessions', 0), nbig))
     if nref < len(logs):
         res.inconclusive.append('only %d of %d reference logs reported' % (nref, len(logs)))
     if res.evaluations - nref < total and not res.violations:
